@@ -14,7 +14,7 @@ use std::time::{Duration, Instant};
 
 pub fn meta() -> Meta {
     Meta {
-        rule: "histories of 6..14 steps over add-authoritative, add-cached(ttl in {0,1,2,1000}, cache-flush), re-add, remove, clear and real sleeps of {0, 0.4, 1.1, 2.1} s \
+        rule: "histories of 6..14 steps over add-authoritative, receive-from-network(ttl in {0,1,2,1000}, cache-flush; either add_cached_resource directly or a response packet through the real sync / tokio ingest functions, with and without on_discovery channel), re-add, remove, clear and real sleeps of {0, 0.4, 1.1, 2.1} s \
 on 8 record identities under collision-free names (x, a.x, b.x, c.a.x); after every step the store is queried with the authoritative (with/without subdomains), cached \
 and combined filters. Every library call is bracketed by two Instant readings; the model keeps per identity Authoritative | Cached{added in [a0,a1], effective ttl}. \
 Cached record: must be returned if the query ended before a0+ttl, must not be returned if it began at or after a1+ttl (in between either); authoritative: always by \
@@ -75,6 +75,19 @@ fn history(seed: u64, idx: u64, virtual_clock: bool) -> Local {
     let mut model: Vec<Option<Kind>> = vec![None; ids.len()];
     let steps = r.usize(6, 14);
     let _ = virtual_clock;
+    // how records "learned from the network" reach the store: 0 = add_cached_resource directly; 1/2 = through the real
+    // ingest function of the sync service discovery (without / with on_discovery channel); 3 = the tokio ingest function.
+    // In the ingest modes the watched service is `x` and the discoverer's own instance `own.x`: records owned by `x`
+    // itself are not strict subdomains and are ignored by the ingest filter (the model then leaves them untouched).
+    let mode = if cfg!(miri) { idx % 3 } else { idx % 4 };
+    let service = simple_dns::Name::new("x").unwrap().into_owned();
+    let own = simple_dns::Name::new("own.x").unwrap().into_owned();
+    let (tx, _rx) = std::sync::mpsc::channel();
+    let mut chan = if mode == 2 { Some(tx) } else { None };
+    let (atx, _arx) = tokio::sync::mpsc::channel(256);
+    let mut achan = Some(atx);
+    let rt = if mode == 3 { tokio::runtime::Builder::new_current_thread().build().ok() } else { None };
+    out.count(&format!("histories_mode_{}", ["direct-store", "sync-ingest", "sync-ingest-with-channel", "tokio-ingest-with-channel"][mode as usize]));
     for step in 0..steps {
         let op = r.below(20);
         match op {
@@ -93,15 +106,27 @@ fn history(seed: u64, idx: u64, virtual_clock: bool) -> Local {
                 rec.ttl = ttl;
                 rec.flush = flush;
                 let rr = bridge::lib_record(&rec).unwrap().into_owned();
+                let ingested = mode == 0 || rec.name.len() > 1; // `x` itself is filtered out by the ingest functions
                 let a0 = Instant::now();
-                store.add_cached_resource(rr);
+                if mode == 0 {
+                    store.add_cached_resource(rr);
+                } else {
+                    let mut p = simple_dns::Packet::new_reply(0);
+                    if r.bool() { p.answers.push(rr) } else { p.additional_records.push(rr) }
+                    match (&rt, mode) {
+                        (Some(rt), 3) => rt.block_on(simple_mdns::verif_async::add_response_to_resources(p, &service, &own, &mut store, &mut achan)),
+                        _ => simple_mdns::verif::add_response_to_resources(p, &service, &own, &mut store, &mut chan),
+                    }
+                }
                 let a1 = Instant::now();
                 let eff = if flush { 1 } else { ttl as u64 };
-                match &model[i] {
-                    Some(Kind::Auth) => {} // sticky
-                    _ => model[i] = Some(Kind::Cached { a0, a1, ttl: eff }),
+                if ingested {
+                    match &model[i] {
+                        Some(Kind::Auth) => {} // sticky
+                        _ => model[i] = Some(Kind::Cached { a0, a1, ttl: eff }),
+                    }
                 }
-                out.log.push(format!("{}: add-cached #{} ttl {} cache-flush {}", step, i, ttl, flush));
+                out.log.push(format!("{}: receive #{} ttl {} cache-flush {} (mode {})", step, i, ttl, flush, mode));
             }
             11 | 12 => {
                 let i = r.usize(0, ids.len() - 1);
